@@ -38,6 +38,23 @@ CHECKS = {
         "assumptions": ["termination = every path stays inside the instruction and call-depth budget (unwinding assertion); exceeding it is reported as a candidate hang and replayed natively under a timeout"],
         "runs": tokruns([], ["VxC04_All2", "VxC04_Lex3", "VxC04_Cmt5"], ["VxC04_All3", "VxC04_Lex4", "VxC04_Cmt7"], generic=["panic", "unwind"]) + parruns(["VxSoup_Start2", "VxSoup_Select2", "VxSoup_From2", "VxSoup_Where2"], ["VxSoup_Start3", "VxSoup_Select3", "VxSoup_From3", "VxSoup_Where3"], ["C01.value_or_error"], generic=["panic", "unwind"]),
     },
+    "C02": {
+        "bounds": {"quick": "byte limit: every input length 0..32 MiB (symbolic 32-bit length, content never read) for Tokenize and TokenizeContext; token limit: source instantiated at MaxTokens=2, all inputs <= 5 bytes over {a space ,}; depth limit: every current depth 0..200 for parseExpression and parseCommonTableExpr; recursion accounting: every *Parser method re-entered while active must see a larger depth, for all <= 3-token continuations (150-row statement/expression lexeme table) of 5 contexts (statement start, SELECT, SELECT * FROM, SELECT * FROM t JOIN, SELECT a FROM t WHERE) and every start depth 0..89",
+                   "thorough": "same, token limit <= 7 bytes, recursion accounting <= 4 tokens"},
+        "outside": "cycles whose shortest re-entry needs more tokens than the bound from these contexts; goroutine stack bytes (activations are counted, not bytes); the real constant MaxTokens=1,000,000 is covered through the instantiation argument (the constant occurs only in the comparison with len(tokens) and in the error builder)",
+        "assumptions": ["documented limits: 10 MiB input, 1,000,000 tokens, nesting depth 100", "p.depth is the accounting measure"],
+        "runs": [
+            {"pkg": TOK, "harness": "VxC02_ByteLimit", "args": {"replace": "(*github.com/ajitpratap0/GoSQLX/pkg/sql/tokenizer.Tokenizer).Reset=VxResetProbe"}, "expect_asserts": ["C02.bytes_reject", "C02.bytes_accepted_only_within_limit"], "validate": 0, "native_skips_replaced": True},
+            {"pkg": TOK, "harness": "VxC02_ByteLimitCtx", "args": {"replace": "(*github.com/ajitpratap0/GoSQLX/pkg/sql/tokenizer.Tokenizer).Reset=VxResetProbe"}, "expect_asserts": ["C02.bytes_reject", "C02.bytes_accepted_only_within_limit"], "validate": 0},
+            {"pkg": TOK, "harness": "VxC02_TokenLimit5", "tiers": ["quick"], "instantiate": {"file": "pkg/sql/tokenizer/tokenizer.go", "regex": r"(MaxTokens\s*=\s*)1000000", "repl": r"\g<1>2"}, "expect_asserts": ["C02.tokens_reject", "C02.tokens_accept"]},
+            {"pkg": TOK, "harness": "VxC02_TokenLimitCtx5", "tiers": ["quick"], "instantiate": {"file": "pkg/sql/tokenizer/tokenizer.go", "regex": r"(MaxTokens\s*=\s*)1000000", "repl": r"\g<1>2"}, "expect_asserts": ["C02.tokens_reject", "C02.tokens_accept"]},
+            {"pkg": TOK, "harness": "VxC02_TokenLimit7", "tiers": ["thorough"], "instantiate": {"file": "pkg/sql/tokenizer/tokenizer.go", "regex": r"(MaxTokens\s*=\s*)1000000", "repl": r"\g<1>2"}, "expect_asserts": ["C02.tokens_reject", "C02.tokens_accept"]},
+            {"pkg": TOK, "harness": "VxC02_TokenLimitCtx7", "tiers": ["thorough"], "instantiate": {"file": "pkg/sql/tokenizer/tokenizer.go", "regex": r"(MaxTokens\s*=\s*)1000000", "repl": r"\g<1>2"}, "expect_asserts": ["C02.tokens_reject", "C02.tokens_accept"]},
+            {"pkg": PAR, "harness": "VxC02_DepthLimit", "expect_asserts": ["C02.depth_reject", "C02.depth_accept"]},
+            {"pkg": PAR, "harness": "VxC02_DepthLimitCTE", "expect_asserts": ["C02.cte_depth_reject", "C02.cte_depth_accept"]},
+        ] + parruns(["VxC02_Reentry_Start3", "VxC02_Reentry_Select3", "VxC02_Reentry_From3", "VxC02_Reentry_Join3", "VxC02_Reentry_Where3"],
+                    ["VxC02_Reentry_Start4", "VxC02_Reentry_Select4", "VxC02_Reentry_From4", "VxC02_Reentry_Join4", "VxC02_Reentry_Where4"], ["C02.reentry_accounted"], extra={"engine_only_asserts": ["C02.reentry_accounted"]}),
+    },
     "C13": {
         "bounds": {"quick": "every failing path of the C01 runs (same bounds): tokenizer errors and low-level parser errors", "thorough": "same as C01 thorough"},
         "outside": "wording of messages and hints; errors of the gosqlx wrappers (checked by C07 harness); reproducibility across Go map iteration order",
